@@ -5,6 +5,7 @@ from __future__ import annotations
 import ast
 
 from sa.astutil import (
+    loop_exits,
     arg_or_kw,
     call_name,
     calls_in,
@@ -296,7 +297,7 @@ def r4_step_loop(ctx):
     run_nodes = [n for n in g.nodes if n.ast is not None and n.kind == "stmt" and contains(n.ast, run_call)]
     lo, hi = g.count_events_per_iteration(header, run_nodes)
     ctx.check((lo, hi) == (1, 1), RUN + "#once", "Processor.run_pipeline runs exactly once per readout time" if (lo, hi) == (1, 1) else f"Processor.run_pipeline runs between {lo} and {hi} times per readout time", where=f, node=run_call, facts={"min": lo, "max": hi})
-    for n in walk_ordered(lp):
+    for n in loop_exits(lp):
         if isinstance(n, (ast.Break, ast.Return)) or (isinstance(n, ast.Continue) and n.lineno < run_call.lineno):
             ctx.fail(RUN + "#exit", f"{type(n).__name__.lower()} inside the step loop skips readout steps", where=f, node=n)
     recv = dotted(expand(f, run_call.func.value)) if isinstance(run_call.func, ast.Attribute) else None
